@@ -123,11 +123,11 @@ func c07Hooks(level int) limHooks {
 
 func runC07(c *Ctx) {
 	level := c.Pick(0, 1)
-	depth := c.Pick(6, 8)
+	depth := c.Pick(6, 7)
 	for _, cfg := range limGrid(1) {
 		if cfg.initial > 100 || (cfg.algo == "vegas" && cfg.probe < 4) {
 			continue // vegas with a probe multiplier below 4 probes on every sample at small estimates (outside C07's domain)
 		}
-		c.runBFS(limModel(cfg, c07Hooks(level)), mc.BFSOptions{MaxDepth: depth, DevBound: c.Pick(1, 2), MaxStates: 300000})
+		c.runBFS(limModel(cfg, c07Hooks(level)), mc.BFSOptions{MaxDepth: depth, DevBound: c.Pick(1, 2), MaxStates: c.Pick(300000, 3000000)})
 	}
 }
